@@ -16,7 +16,8 @@ TECHNIQUE = "literal-table check of the roman numeral table; sibling-fact compar
 CLAIM = ("Decides: the roman token/value table is the standard one and the loop is the greedy division; the three power-of-ten "
          "formatters omit the significand for the same literals and render int(exponent); number_to_scientific_<x> is wired to "
          "its own unit and power formatters; precision, unit placement and uncertainty conversion in _number_to_X; parameter = "
-         "magnitude + unit.")
+         "magnitude + unit."
+         ' Which value/unit/uncertainty is formatted; exponent split (R6). Shared rule A1: no swapped same-named arguments at resolved in-package call sites.')
 DOES_NOT_DECIDE = "rounding/carry behaviour of %g and of _float_str_w_uncert over the float range (runtime values)"
 ASSUMPTIONS = ["Python %-formatting semantics"]
 
